@@ -362,6 +362,30 @@ def c20Eval : PropEval := fun i pre post =>
      | _, _ => none)
   | _, _ => none
 
+/-- C17: the INPUT / OUTPUT instructions on the queues seen as plain bounded sequences (oldest first) -/
+def c17Eval : PropEval := fun i pre post =>
+  match i, post with
+  | .io .outWrite, some post =>
+    (match pre.bvec, pre.ivec with
+     | body :: _, header :: _ =>
+       let items := pre.output.items
+       let want := if items.length < pre.output.cap then items ++ [(⟨header, body⟩ : Msg)] else items
+       if encBuf encMsg { pre.output with items := want } == encBuf encMsg post.output then none
+       else some "OUTPUT.WRITE must append the message behind the queued ones, or be ignored when the queue is full"
+     | _, _ => none)
+  | .io .next, some post =>
+    if encBuf encMsg { pre.input with items := pre.input.items.tail } == encBuf encMsg post.input then none
+    else some "INPUT.NEXT must drop exactly the oldest message"
+  | .io .read, some post =>
+    (match pre.input.items with
+     | m :: _ =>
+       if encBuf encMsg pre.input == encBuf encMsg post.input &&
+          post.bvec.head? == some m.body && post.ivec.head? == some m.header &&
+          post.bvec.length == pre.bvec.length + 1 && post.ivec.length == pre.ivec.length + 1 then none
+       else some "INPUT.READ must copy body and header of the OLDEST message and leave the queue as it is"
+     | [] => none)
+  | _, _ => none
+
 /-- C10: missing arguments never fabricate results; instructions touch only their stacks -/
 def c10Eval : PropEval := fun i pre post =>
   match post with
@@ -396,7 +420,7 @@ def c15Eval : PropEval := fun i pre post =>
 
 def propEvals : List (String × PropEval) :=
   [("C01", panicFree), ("C04", c04Eval), ("C05", c05Eval), ("C06", c06Eval), ("C07", c07Eval), ("C08", c08Eval),
-   ("C09", c09Eval), ("C19", c19Eval), ("C15", c15Eval), ("C10", c10Eval), ("C18", c18Eval), ("C20", c20Eval)]
+   ("C09", c09Eval), ("C19", c19Eval), ("C15", c15Eval), ("C10", c10Eval), ("C18", c18Eval), ("C20", c20Eval), ("C17", c17Eval)]
 
 /-- instruction names in the scope of a property's single-instruction scenario -/
 def scopeOf (pid : String) : List Instr :=
